@@ -36,16 +36,20 @@ Record xstate := {
   x_rst : list rstask;
   x_clock : Z;
   x_scan : option (Z * list Z);               (* cutoff, selected blobs *)
-  x_nblobs : Z                                (* compositional: blobs created so far *)
+  x_nblobs : Z;                               (* compositional: blobs created so far *)
+  x_dead : list Z                             (* ghost: blobs that were finally deleted (never read by any step) *)
 }.
 
 Definition init_x : xstate :=
   {| x_cl := Cluster.Model.init_state; x_soup := []; x_del := []; x_deltr := []; x_chunks := []; x_pend := [];
-     x_rst := []; x_clock := 1; x_scan := None; x_nblobs := 0 |}.
+     x_rst := []; x_clock := 1; x_scan := None; x_nblobs := 0; x_dead := [] |}.
 
 Definition upd (x : xstate) cl soup del deltr chunks pend rst scan nb : xstate :=
   {| x_cl := cl; x_soup := soup; x_del := del; x_deltr := deltr; x_chunks := chunks; x_pend := pend;
-     x_rst := rst; x_clock := x_clock x + 1; x_scan := scan; x_nblobs := nb |}.
+     x_rst := rst; x_clock := x_clock x + 1; x_scan := scan; x_nblobs := nb; x_dead := x_dead x |}.
+Definition add_dead (x : xstate) (l : list Z) : xstate :=
+  {| x_cl := x_cl x; x_soup := x_soup x; x_del := x_del x; x_deltr := x_deltr x; x_chunks := x_chunks x; x_pend := x_pend x;
+     x_rst := x_rst x; x_clock := x_clock x; x_scan := x_scan x; x_nblobs := x_nblobs x; x_dead := l ++ x_dead x |}.
 Definition set_cl (x : xstate) cl := upd x cl (x_soup x) (x_del x) (x_deltr x) (x_chunks x) (x_pend x) (x_rst x) (x_scan x) (x_nblobs x).
 
 (* the durable state as CheckForGarbage reads it *)
@@ -159,9 +163,9 @@ Definition step_finish (x : xstate) (n : Z) : xstate * list Z :=
     | None => x
     | Some (cutoff, sel) =>
         let dead := filter (fun b => match aget (x_del x) b with Some (_, _, tm) => tm <? cutoff | None => false end) sel in
-        upd x (x_cl x) (x_soup x) (filter (fun e => negb (zmem (fst e) dead)) (x_del x))
+        add_dead (upd x (x_cl x) (x_soup x) (filter (fun e => negb (zmem (fst e) dead)) (x_del x))
             (filter (fun e => negb (zmem (fst (fst e)) dead)) (x_deltr x))
-            (x_chunks x) (x_pend x) (x_rst x) None (x_nblobs x)
+            (x_chunks x) (x_pend x) (x_rst x) None (x_nblobs x)) dead
     end in
   (x1, map (fun i => b2z (blob_exists x1 (Z.of_nat i))) (seq 0 (Z.to_nat n))).
 
